@@ -243,6 +243,25 @@ def clause2_ret(ctx, P, cg, own):
     ctx.note("initialiser functions (fail after an allocation failure, write their argument on success): %s" % names)
     if not {"add_routing_table"} <= set(names):
         raise AnalysisBroken("initialiser discovery lost its anchors: %s" % names)
+    # a failing initialiser leaves nothing registered: no list linking of its argument and no store to a global on a failure
+    # path unless undone on that path (the caller releases the half-built object)
+    for f in inits:
+        bad = None
+        nfail = 0
+        for v in own.views(f):
+            rc = v.ret_const()
+            if rc is None or rc >= 0:
+                continue
+            nfail += 1
+            linked = [i for _, i in v.calls(("list_add_tail", "list_add"))]
+            unlinked = [i for _, i in v.calls("list_del")]
+            gst = [i for _, i in v.insts() if i.op == "store" and P.term(f, i.a[1])[0] == "global"]
+            if (linked and len(unlinked) < len(linked)) or gst:
+                bad = (v, "links its argument into a list" if linked else "writes global state (%s)" % fmt_term(P.term(f, gst[0].a[1])))
+        ctx.ob("C15.2 R-COMMIT", f, "failure-leaves-nothing-registered", bad is None,
+               "%s %s on a path that then fails: the caller frees the object, which stays reachable (global peer list / counter) - a "
+               "dangling peer that other peers' sweeps and the shutdown sequence will touch" % (f.srcname, bad[1] if bad else ""),
+               witness=bad[0].witness() if bad else None)
     n = 0
     for f in inits:
         sites = list(P.callers_of(f))
